@@ -267,7 +267,7 @@ pub fn property(_tier: Tier) -> Property {
             Box::new(RandomPart {
                 name: "one_fault",
                 rule: "proptest: history of C01's shape (0-10 steps/blocks), then 0-4 requests issued (optionally with reply bytes on hold), then exactly one fault - peer closes now / after k more bytes (0-6000) / read error after k bytes / the n-th next write fails / a definitely malformed line is injected - or every client handle is dropped (optionally the event receiver first); then 0-4 later requests/advances; writes after a peer close fail with BrokenPipe or succeed silently. Judged by E1 every request resolves (virtual 1 h bound), E2 completely received reply => that reply, E3 otherwise ConnectionClosed/Protocol, E4 is_connection_closed, E5 event stream ends, at most one closing event and it is last, E6 non-clean failure surfaced (strictly: to the caller whose reply was partly delivered), E7 transport released after the last handle is gone, no closing event without a failure. non-trivial = fault struck with a request pending / inside a response, or handles dropped with requests issued",
-                cases: (30_000, 2_000_000),
+                cases: (60_000, 3_000_000),
                 strategy: Box::new(|_t| simgen::faulty_script().boxed()),
                 check: Box::new(|s: &Script| {
                     let obs = sim::run(s);
